@@ -195,10 +195,10 @@ M('c10-check-then-act', [(CNT, '''        self.actual_count
         }''')], {'C10': r'R10\.[12]'})
 M('c10-shared-cache', [('src/state.rs', '''    next_ordered_call_index: AtomicUsize,
     pub panic_reasons''', '''    next_ordered_call_index: AtomicUsize,
-    pub last_call: std::sync::Mutex<Option<TypeId>>,
+    pub last_call: core::sync::atomic::AtomicPtr<u8>,
     pub panic_reasons'''), ('src/state.rs', '''            next_ordered_call_index: AtomicUsize::new(0),
             panic_reasons''', '''            next_ordered_call_index: AtomicUsize::new(0),
-            last_call: std::sync::Mutex::new(None),
+            last_call: core::sync::atomic::AtomicPtr::new(core::ptr::null_mut()),
             panic_reasons''')], {'C10': r'R10\.3'})
 M('c10-position-plus-one', [('src/call_pattern.rs', 'find_responder_by_call_index(&self.responders, self.call_counter.fetch_add())', 'find_responder_by_call_index(&self.responders, self.call_counter.fetch_add() + 1)')], {'C10': r'R10\.2'})
 M('h-c10-rename-bump', [('src/state.rs', 'pub fn bump_ordered_call_index(&self)', 'pub fn take_next_slot(&self)'), ('src/eval.rs', 'self.shared_state.bump_ordered_call_index()', 'self.shared_state.take_next_slot()')], silent=['C10'])
